@@ -1,3 +1,5 @@
+// `iref_verif` is the cfg flag of the verification hooks (see `verif_trace`).
+#![allow(unexpected_cfgs)]
 pub(crate) mod common;
 pub mod iri;
 pub mod uri;
